@@ -102,7 +102,7 @@ func runCompletionContainment(p *Prog, r *Report) {
 					return false
 				}
 				hit := false
-				ast.Inspect(a.E, func(z ast.Node) bool {
+				ast.Inspect(d.funcOfNode(call).InlineLocals(a.E, 3), func(z ast.Node) bool {
 					c, ok := z.(*ast.CallExpr)
 					if !ok || hit {
 						return !hit
